@@ -82,7 +82,15 @@ class System:
         dt = A.DTYPES[root['dtype']]
         lst = [[], [dt.values[0]], [dt.values[1], dt.values[2]], list(dt.values)][root['items']]
         a = self.bs.Array(root['dtype'], lst, trailing_bits=('0b' + root['trailing']) if root['trailing'] else None)
-        return {'bitstring': self.bs, 'a': a, 'array': pyarray, 'math': math, 'Array': self.bs.Array, 'nan': float('nan'), 'inf': float('inf')}
+        return {'bitstring': self.bs, 'a': a, 'array': pyarray, 'math': math, 'Array': self.bs.Array, 'nan': float('nan'), 'inf': float('inf'), 'FLOOD': self.flood}
+
+    def flood(self):
+        """Create more distinct Dtypes than the Dtype caches hold, so that objects created afterwards no longer share cached Dtype objects
+        with those created before."""
+        for i in range(300):
+            self.bs.Dtype('uint', 70 + i)
+            self.bs.Dtype(f'int{70 + i}')
+        return None
 
     def root_src(self, root):
         dt = A.DTYPES[root['dtype']]
@@ -92,7 +100,12 @@ class System:
 
     def observe(self, world):
         a = world['a']
-        # the model key is tracked through the dtype string (setdtype events change it)
+        # the model key is tracked through the dtype string (setdtype events change it).  Derived attributes are read at EVERY observation, so
+        # a value cached at one point and stale after a later event (itemsize after a dtype change, len after an append) shows as a state the
+        # model cannot produce.
+        w = a.dtype.bitlength
+        if a.itemsize != w or len(a) != len(a.data) // w or len(a.trailing_bits) != len(a.data) % w or len(list(a)) != len(a):
+            return (str(a.dtype), a.data.bin, 'INCONSISTENT', f"itemsize={a.itemsize} dtype-width={w} len={len(a)} iter={len(list(a))} data={len(a.data)} trailing={len(a.trailing_bits)}")
         return (str(a.dtype), a.data.bin)
 
     def full_view(self, world):
@@ -125,7 +138,9 @@ class System:
         return [(p, (dstr(k2), b2)) for p, (k2, b2) in alts]
 
     def snippet(self, root, hist, ev, accept):
-        lines = ["import bitstring, array, math", "from bitstring import Array", "nan, inf = float('nan'), float('inf')", CV_SRC] + self.root_src(root)
+        lines = ["import bitstring, array, math", "from bitstring import Array", "nan, inf = float('nan'), float('inf')", CV_SRC] + \
+                (["def FLOOD():", "    [bitstring.Dtype('uint', 70 + i) for i in range(300)]; [bitstring.Dtype(f'int{70 + i}') for i in range(300)]"]
+                 if any('FLOOD(' in x.src for x in list(hist) + [ev]) else []) + self.root_src(root)
         for h in hist:
             lines += ["try:", f"    {h.src}", "except Exception:", "    pass"]
         is_expr = True
@@ -217,6 +232,9 @@ def build_menu(key, n, has_trailing, menu):
         other = 'uint8' if key != 'uint8' else 'int8'
         E('extend', ('otherdtype',), f"a.extend(Array({other!r}, [1]))", True)
         E('extend', ('str',), "a.extend('0x1')", True)
+        # Arrays of the same format created on either side of an eviction from the Dtype caches are still the same format
+        E('extend', ('values', tuple(vals[:2]), 'after-flood'), f"(FLOOD(), a.extend(Array({key!r}, {lsrc})))[1]", True)
+        E('equals', ('same-after-flood',), f"(FLOOD(), a.equals(Array({key!r}, a.tolist())))[1]", True)
         if key in ('<H', 'uintle16', '=l', '>b', 'uint8', 'int8'):
             tc = {'<H': 'H', 'uintle16': 'H', '=l': 'i', '>b': 'b', 'uint8': 'B', 'int8': 'b'}[key]
             E('extend', ('values', (1, 2)), f"a.extend(array.array({tc!r}, [1, 2]))", True)
@@ -440,6 +458,8 @@ def model_step(st, ev):
             return OK(tr == '', same)
         if what == 'other':
             return OK(bits == dt.enc(dt.values[0]), same)
+        if what == 'same-after-flood':
+            return OK(tr == '', same)      # an Array rebuilt from the items: equal unless the original carries trailing bits
         return OK(False, same)
     if op == 'tobytes':
         pad = (-len(bits)) % 8
@@ -577,6 +597,8 @@ def run_shard(shard, acc):
 
     def observe(world):
         st = orig_observe(world)
+        if len(st) > 2:
+            return st
         try:
             key = sysm.key_of(st)
         except KeyError:
